@@ -229,6 +229,9 @@ let run (entry : string) (inp : Sx.t) : Sx.t =
       (match EncodedCmp.encode_int (to_z offset) (to_z k) with
        | None -> A "none"
        | Some e -> L [A "some"; of_bool (EncodedCmp.cmp_enc (to_cmpop c) (BinInt.Z.sub (to_z v) (to_z offset)) e)])
+  | "encoded_cmp_wrapping", L [c; offset; v; k] ->
+      L [A "some"; of_bool (EncodedCmp.cmp_enc (to_cmpop c) (BinInt.Z.sub (to_z v) (to_z offset))
+                             (EncodedCmp.encode_int_wrapping (to_z offset) (to_z k)))]
   | "inverse_dict_lookup", L [dict; c] ->
       of_z (EncodedCmp.inverse_dict_lookup (to_list to_bytes dict) (to_bytes c))
   | "q_valid", L [rows; q; out] ->
